@@ -18,7 +18,7 @@ def classify_value(v, md):
     return None
 
 
-def build_interp_program(md, observe_reg=None, land=None):
+def build_interp_program(md, observe_reg=None, land=None, observe_mem=False):
     """program that reaches the model's loop-head state at pc (depth 0) and executes the instruction there."""
     p = md['pc']; n = md['prog_len'] // 8
     if md['sfi'] != 0: return None, 'model needs call depth > 0'
@@ -51,7 +51,10 @@ def build_interp_program(md, observe_reg=None, land=None):
                 patches.append((slot, name, delta) + ((sub,) if sub else ())); pre += lddw(r, 0)
     L = len(pre) // 8
     if p < L: return None, f'model pc {p} too small for the {L}-slot prelude'
-    if n < p + 2: n = p + 2
+    # keep the model's program length when the instruction is the last one (running off the end is the point of such a model); pad only when an
+    # observation instruction or a landing pad has to follow
+    need = p + 1 if (md['opc'] in (0x05, 0x95) and observe_reg is None and not observe_mem and land is None) else p + 2       # only ja / exit may be last
+    if n < need: n = need
     if n > 200000: return None, f'program of {n} slots too large to replay'
     slots = [insn(0x95)] * n
     for i in range(L): slots[i] = pre[8 * i:8 * i + 8]
@@ -67,6 +70,10 @@ def build_interp_program(md, observe_reg=None, land=None):
             if land <= p: return None, f'backward landing pad at {land} would cut the sled'
         if land + 1 >= n: slots += [insn(0x95)] * (land + 2 - n); n = len(slots)
         slots[land] = insn(0xb7, 0, 0, 0, GOOD); slots[land + 1] = insn(0x95)
+    elif observe_mem and kcls in ('st', 'stx', 'xadd'):
+        # read the stored bytes back into r0 (a store into the eBPF stack is not visible in any buffer after the run)
+        while len(slots) < nxt + 2: slots.append(insn(0x95))
+        slots[nxt] = insn({1: 0x71, 2: 0x69, 4: 0x61, 8: 0x79}[kinfo['size']], 0, md['dst'], off_s); slots[nxt + 1] = insn(0x95)
     elif observe_reg is not None and nxt + 1 < n + 2:
         while len(slots) < nxt + 2: slots.append(insn(0x95))
         slots[nxt] = insn(0xbf, 0, observe_reg); slots[nxt + 1] = insn(0x95)
@@ -117,7 +124,7 @@ def replay_interp(c, engine='interp'):
     role = c['role']; aspect = role.split('/')[2] if role.count('/') >= 2 else role
     obs = md.get('reg') if aspect == 'reg-value' else None
     land = md.get('want') if aspect.startswith('pc-value') else None
-    b, why = build_interp_program(md, observe_reg=obs, land=land)
+    b, why = build_interp_program(md, observe_reg=obs, land=land, observe_mem=(aspect == 'mem-value'))
     if b is None: return None, why
     helpers = []
     k = spec.classify(md['opc'])[0]
